@@ -3,3 +3,504 @@ From Coq Require Import List Arith Bool Lia.
 Import ListNotations.
 Require Import Verif.Model.C13 Verif.Model.C13_Nilness Verif.Model.C15.
 Require Import Verif.Proofs.C13 Verif.Proofs.C13_Lattices Verif.Proofs.C13_Nilness.
+
+(* ------------------------------------------------------------------ gamma *)
+Lemma vn_eqb_eq a b : vn_eqb a b = true <-> a = b.
+Proof.
+  destruct a, b. unfold vn_eqb. simpl. rewrite andb_true_iff, !nil_eqb_eq. split.
+  - intros [-> ->]. reflexivity.
+  - intros H. inversion H. auto.
+Qed.
+
+Lemma gamma_ident sh : gamma vident sh = false.
+Proof. unfold gamma, vident. simpl. apply andb_false_r. Qed.
+
+Lemma gamma_o_mono a b sh : leq a b -> gamma_o a sh = true -> gamma_o b sh = true.
+Proof. destruct a, b, sh; vm_compute; intros; congruence. Qed.
+
+Lemma gamma_i_mono a b sh : leq a b -> gamma_i a sh = true -> gamma_i b sh = true.
+Proof. destruct a, b, sh as [| | |[]]; vm_compute; intros; congruence. Qed.
+
+(* merge_sound: the concretisation is monotone, hence gamma a U gamma b <= gamma (a merge b) *)
+Lemma gamma_mono (a b : vn) sh : leq a b -> gamma a sh = true -> gamma b sh = true.
+Proof.
+  destruct a as [a1 a2], b as [b1 b2]. unfold leq, leqb, gamma. simpl.
+  rewrite !andb_true_iff. intros [L1 L2] [G1 G2]. split.
+  - eapply gamma_i_mono; eauto.
+  - eapply gamma_o_mono; eauto.
+Qed.
+
+Lemma merge_sound_l (a b : vn) sh : gamma a sh = true -> gamma (merge a b) sh = true.
+Proof. apply gamma_mono. apply merge_ub_l. Qed.
+Lemma merge_sound_r (a b : vn) sh : gamma b sh = true -> gamma (merge a b) sh = true.
+Proof. apply gamma_mono. apply merge_ub_r. Qed.
+
+Lemma gamma_i_nonhold i sh : (forall b, sh <> SHold b) -> gamma_i i sh = true.
+Proof. destruct sh; simpl; intros; auto. exfalso. eapply H; eauto. Qed.
+
+Lemma gamma_MM sh : gamma MM sh = true.
+Proof. destruct sh as [| | |[]]; reflexivity. Qed.
+
+Lemma gamma_normalize x ifc sh : gamma x sh = true -> gamma (normalize x ifc) sh = true.
+Proof.
+  destruct x as [i o]. unfold gamma, normalize. simpl. rewrite !andb_true_iff. intros [G1 G2]. split.
+  - destruct (nil_eqb i NoNil || negb ifc); [destruct sh as [| | |[]]; reflexivity | exact G1].
+  - destruct (nil_eqb o NoNil) eqn:E; [destruct sh as [| | |[]]; reflexivity | exact G2].
+Qed.
+
+(* ------------------------------------------------------------------ the state vector *)
+Lemma length_dset s k x : length (dset s k x) = Nat.max (length s) (S k).
+Proof. unfold dset. rewrite length_upd, app_length, repeat_length. lia. Qed.
+
+Lemma nth_dset_eq s k x : nth k (dset s k x) vident = x.
+Proof. unfold dset. apply nth_upd_eq. rewrite app_length, repeat_length. lia. Qed.
+
+Lemma nth_dset_neq s k x w : w <> k -> nth w (dset s k x) vident = nth w s vident.
+Proof.
+  intros H. unfold dset. rewrite nth_upd_neq by auto.
+  destruct (Nat.lt_ge_cases w (length s)).
+  - apply app_nth1; auto.
+  - rewrite app_nth2 by auto. rewrite (nth_overflow s) by auto.
+    destruct (Nat.lt_ge_cases (w - length s) (S k - length s)).
+    + apply nth_repeat_lt; auto.
+    + apply nth_overflow. rewrite repeat_length. auto.
+Qed.
+
+Section Sound.
+  Variable f : func.
+
+  (* typing of environments, and the abstract state covering an environment: every defined pointer-like value has an
+     explicit entry in the state vector whose concretisation contains its shape *)
+  Definition env_wf (r : env) : Prop := forall v sh, r v = Some sh -> ptr f v = false -> sh = SNon.
+  Definition covers (s : st) (r : env) : Prop :=
+    forall v sh, r v = Some sh -> ptr f v = true -> v < length s /\ gamma (nth v s vident) sh = true.
+
+  Lemma sget_covered s r v sh : covers s r -> r v = Some sh -> ptr f v = true -> sget f s v = nth v s vident.
+  Proof.
+    intros C R P. unfold sget. rewrite P. simpl. destruct (C v sh R P) as [L _].
+    apply Nat.ltb_lt in L. rewrite L. reflexivity.
+  Qed.
+
+  Lemma sget_gamma s r v sh : covers s r -> env_wf r -> r v = Some sh -> gamma (sget f s v) sh = true.
+  Proof.
+    intros C W R. destruct (ptr f v) eqn:P.
+    - rewrite (sget_covered s r v sh C R P). apply (C v sh R P).
+    - unfold sget. rewrite P. simpl. rewrite (W v sh R P). reflexivity.
+  Qed.
+
+  Lemma wf_nonptr r v sh : env_wf r -> r v = Some sh -> ptr f v = false -> sh = SNon.
+  Proof. intros W R P. eapply W; eauto. Qed.
+
+  Lemma wf_shape_nonptr v sh : wf_shape (vi f v) sh = true -> ptr f v = false -> sh = SNon.
+  Proof.
+    unfold wf_shape, ptr. intros H P. rewrite P in H. simpl in H. destruct sh; try discriminate. reflexivity.
+  Qed.
+
+  Lemma eset_eq r v sh : eset r v sh v = Some sh.
+  Proof. unfold eset. rewrite Nat.eqb_refl. reflexivity. Qed.
+  Lemma eset_neq r v sh w : w <> v -> eset r v sh w = r w.
+  Proof. intros H. unfold eset. apply Nat.eqb_neq in H. rewrite H. reflexivity. Qed.
+
+  Lemma env_wf_eset r v sh : env_wf r -> (ptr f v = false -> sh = SNon) -> env_wf (eset r v sh).
+  Proof.
+    intros W H w sh' R P. unfold eset in R. destruct (Nat.eqb_spec w v).
+    - inversion R; subst. auto.
+    - eapply W; eauto.
+  Qed.
+
+  (* covering is preserved by writes to other entries *)
+  Lemma covers_dset_other s r v x : covers s r -> r v = None \/ True ->
+    forall w sh, w <> v -> r w = Some sh -> ptr f w = true ->
+    w < length (dset s v x) /\ gamma (nth w (dset s v x) vident) sh = true.
+  Proof.
+    intros C _ w sh N R P. destruct (C w sh R P) as [L G]. split.
+    - rewrite length_dset. lia.
+    - rewrite nth_dset_neq by auto. exact G.
+  Qed.
+
+  (* defining (or redefining) v with an abstract value that contains its shape *)
+  Lemma covers_set s r v x sh :
+    covers s r -> (ptr f v = true -> gamma x sh = true) -> covers (sset f s v x) (eset r v sh).
+  Proof.
+    intros C G w sh' R P. unfold eset in R. unfold sset.
+    destruct (Nat.eqb_spec w v).
+    - subst w. inversion R; subst sh'. rewrite P. simpl.
+      specialize (G P). destruct (vn_eqb x vident) eqn:E.
+      + apply vn_eqb_eq in E. subst x. rewrite gamma_ident in G. discriminate.
+      + split. * rewrite length_dset. lia. * rewrite nth_dset_eq. exact G.
+    - destruct (negb (ptr f v)); [apply C; auto|].
+      destruct (vn_eqb x vident); [apply C; auto|].
+      apply covers_dset_other with (r := r); auto.
+  Qed.
+
+  (* refining the Outer / Inner component of a value that stays as it is *)
+  Lemma covers_refine_outer s r x o sh :
+    covers s r -> env_wf r -> r x = Some sh -> gamma_o o sh = true -> covers (sset_outer f s x o) r.
+  Proof.
+    intros C W R G w sh' R' P. unfold sset_outer.
+    destruct (ptr f x) eqn:Px; simpl; [| apply C; auto].
+    destruct (nil_eqb o NoNil) eqn:E; [apply C; auto|].
+    destruct (Nat.eq_dec w x).
+    - subst w. rewrite R in R'. inversion R'; subst sh'. split.
+      + rewrite length_dset. lia.
+      + rewrite nth_dset_eq. rewrite (sget_covered s r x sh C R Px).
+        destruct (C x sh R Px) as [_ G']. unfold gamma in *. simpl.
+        apply andb_true_iff in G'. destruct G' as [G1 _]. rewrite G1, G. reflexivity.
+    - apply covers_dset_other with (r := r); auto.
+  Qed.
+
+  (* defining v through setOuter only: fine when the shape is not an interface holding something *)
+  Lemma covers_def_outer s r v o sh :
+    covers s r -> (forall b, sh <> SHold b) -> (ptr f v = true -> gamma_o o sh = true) ->
+    covers (sset_outer f s v o) (eset r v sh).
+  Proof.
+    intros C NH G w sh' R P. unfold eset in R. unfold sset_outer.
+    destruct (Nat.eqb_spec w v).
+    - subst w. inversion R; subst sh'. rewrite P. simpl. specialize (G P).
+      destruct (nil_eqb o NoNil) eqn:E.
+      + apply nil_eqb_eq in E. subst o. simpl in G. discriminate.
+      + split. * rewrite length_dset. lia.
+        * rewrite nth_dset_eq. unfold gamma. simpl. rewrite (gamma_i_nonhold _ sh NH), G. reflexivity.
+    - destruct (negb (ptr f v)); [apply C; auto|].
+      destruct (nil_eqb o NoNil); [apply C; auto|].
+      apply covers_dset_other with (r := r); auto.
+  Qed.
+
+  Lemma covers_eset_nonptr s r v sh : covers s r -> ptr f v = false -> covers s (eset r v sh).
+  Proof.
+    intros C P w sh' R Pw. unfold eset in R. destruct (Nat.eqb_spec w v).
+    - subst. congruence.
+    - apply C; auto.
+  Qed.
+
+  Lemma covers_reset s r x val sh :
+    covers s r -> r x = Some sh -> (ptr f x = true -> gamma val sh = true) -> covers (sset f s x val) r.
+  Proof.
+    intros C R G w sh' R' P. unfold sset.
+    destruct (ptr f x) eqn:Px; simpl; [| apply C; auto].
+    specialize (G eq_refl).
+    destruct (vn_eqb val vident) eqn:E.
+    - apply vn_eqb_eq in E. subst val. rewrite gamma_ident in G. discriminate.
+    - destruct (Nat.eq_dec w x).
+      + subst w. rewrite R in R'. inversion R'; subst sh'. split.
+        * rewrite length_dset. lia.
+        * rewrite nth_dset_eq. exact G.
+      + apply covers_dset_other with (r := r); auto.
+  Qed.
+
+  Lemma eset_SNon_keep r v x : r x = Some SNon -> eset r v SNon x = Some SNon.
+  Proof. intros H. unfold eset. destruct (Nat.eqb x v); auto. Qed.
+
+  Lemma wf_noniface v sh : wf_shape (vi f v) sh = true -> v_iface (vi f v) = false -> forall b, sh <> SHold b.
+  Proof.
+    unfold wf_shape. intros H I b ->. destruct (negb (v_ptr (vi f v))); [discriminate|].
+    rewrite I in H. discriminate.
+  Qed.
+
+  Lemma gamma_o_outer o sh sa : outer_nil sh = outer_nil sa -> gamma_o o sh = gamma_o o sa.
+  Proof. intros H. destruct o; simpl; rewrite ?H; reflexivity. Qed.
+
+  Lemma gamma_o_to_inner o sx : gamma_o o sx = true -> gamma_i o (SHold (outer_nil sx)) = true.
+  Proof. destruct o, sx; simpl; intros; congruence. Qed.
+
+  Lemma gamma_i_to_outer i b : gamma_i i (SHold b) = true -> gamma_o i (if b then SNil else SNon) = true.
+  Proof. destruct i, b; simpl; intros; congruence. Qed.
+
+  Lemma held_not_hold v b : forall c, held_shape (vi f v) b <> SHold c.
+  Proof. intros c. unfold held_shape. destruct (negb (v_ptr (vi f v))); [discriminate|]. destruct b; discriminate. Qed.
+
+  Lemma held_gamma_o v b i : ptr f v = true -> gamma_i i (SHold b) = true -> gamma_o i (held_shape (vi f v) b) = true.
+  Proof.
+    intros P G. unfold held_shape. unfold ptr in P. rewrite P. simpl. apply gamma_i_to_outer. exact G.
+  Qed.
+
+  (* defining an interface value by setOuter followed by setInner, or the other way round *)
+  Lemma covers_def_outer_inner s r v o i sh :
+    covers s r -> ptr f v = true -> gamma (i, o) sh = true ->
+    covers (sset_inner f (sset_outer f s v o) v i) (eset r v sh).
+  Proof.
+    intros C P G w sh' R Pw.
+    assert (No : nil_eqb o NoNil = false).
+    { destruct (nil_eqb o NoNil) eqn:E; auto. apply nil_eqb_eq in E. subst o.
+      unfold gamma in G. simpl in G. rewrite andb_false_r in G. discriminate. }
+    assert (Ni : nil_eqb i NoNil = false \/ forall b, sh <> SHold b).
+    { destruct (nil_eqb i NoNil) eqn:E; auto. right. apply nil_eqb_eq in E. subst i.
+      intros b ->. unfold gamma in G. simpl in G. discriminate. }
+    unfold sset_inner, sset_outer. rewrite P, No. simpl.
+    set (s1 := dset s v (fst (sget f s v), o)).
+    assert (G1 : sget f s1 v = (fst (sget f s v), o)).
+    { unfold sget at 1. rewrite P. simpl.
+      assert (L : v < length s1) by (unfold s1; rewrite length_dset; lia).
+      apply Nat.ltb_lt in L. rewrite L. unfold s1. apply nth_dset_eq. }
+    unfold eset in R. destruct (Nat.eqb_spec w v).
+    - subst w. inversion R; subst sh'.
+      destruct (nil_eqb i NoNil) eqn:Ei.
+      + (* setInner was a no-op: the shape is not an interface holding something *)
+        destruct Ni as [Ni | Ni]; [discriminate|].
+        split. * unfold s1. rewrite length_dset. lia.
+        * unfold s1. rewrite nth_dset_eq. unfold gamma in *. simpl in *.
+          apply andb_true_iff in G. destruct G as [_ G2]. rewrite (gamma_i_nonhold _ sh Ni), G2. reflexivity.
+      + split. * rewrite length_dset. lia.
+        * rewrite nth_dset_eq. rewrite G1. simpl. exact G.
+    - assert (B : w < length s1 /\ gamma (nth w s1 vident) sh' = true)
+        by (unfold s1; apply covers_dset_other with (r := r); auto).
+      destruct (nil_eqb i NoNil); [exact B|].
+      destruct B as [B1 B2]. split.
+      + rewrite length_dset. lia.
+      + rewrite nth_dset_neq by auto. exact B2.
+  Qed.
+
+  Lemma covers_def_inner_outer s r v o i sh :
+    covers s r -> ptr f v = true -> gamma (i, o) sh = true ->
+    covers (sset_outer f (sset_inner f s v i) v o) (eset r v sh).
+  Proof.
+    intros C P G w sh' R Pw.
+    assert (No : nil_eqb o NoNil = false).
+    { destruct (nil_eqb o NoNil) eqn:E; auto. apply nil_eqb_eq in E. subst o.
+      unfold gamma in G. simpl in G. rewrite andb_false_r in G. discriminate. }
+    unfold sset_outer. rewrite P, No. simpl.
+    unfold eset in R. destruct (Nat.eqb_spec w v).
+    - subst w. inversion R; subst sh'. split.
+      + rewrite length_dset. lia.
+      + rewrite nth_dset_eq. unfold sset_inner. rewrite P. simpl.
+        destruct (nil_eqb i NoNil) eqn:Ei.
+        * apply nil_eqb_eq in Ei. subst i. unfold gamma in *. simpl in *.
+          apply andb_true_iff in G. destruct G as [G1 G2]. rewrite G2, andb_true_r.
+          apply gamma_i_nonhold. intros b ->. simpl in G1. discriminate.
+        * set (s1 := dset s v (i, snd (sget f s v))).
+          assert (G1 : sget f s1 v = (i, snd (sget f s v))).
+          { unfold sget at 1. rewrite P. simpl.
+            assert (L : v < length s1) by (unfold s1; rewrite length_dset; lia).
+            apply Nat.ltb_lt in L. rewrite L. unfold s1. apply nth_dset_eq. }
+          rewrite G1. simpl. exact G.
+    - assert (B : w < length (sset_inner f s v i) /\ gamma (nth w (sset_inner f s v i) vident) sh' = true).
+      { unfold sset_inner. rewrite P. simpl. destruct (nil_eqb i NoNil); [apply C; auto|].
+        apply covers_dset_other with (r := r); auto. }
+      destruct B as [B1 B2]. split.
+      + rewrite length_dset. lia.
+      + rewrite nth_dset_neq by auto. exact B2.
+  Qed.
+
+  Lemma handle_ret_sound s r v cr sh :
+    covers s r -> env_wf r -> call_result_ok f r v cr sh -> covers (handle_ret f s v cr) (eset r v sh).
+  Proof.
+    intros C W [WS OK]. unfold handle_ret.
+    destruct (ptr f v) eqn:P; simpl.
+    2:{ apply covers_eset_nonptr; auto. }
+    destruct cr as [[] a | [x|] ifc | ].
+    - (* append *)
+      destruct OK as (NI & sa & Ra & H).
+      pose proof (sget_gamma s r a sa C W Ra) as Ga.
+      unfold gamma in Ga. apply andb_true_iff in Ga. destruct Ga as [_ Ga].
+      pose proof (wf_noniface v sh WS NI) as NH.
+      destruct (snd (sget f s a)) eqn:E; simpl in Ga.
+      + discriminate.
+      + apply covers_def_outer; auto. intros _.
+        rewrite H; [reflexivity|]. apply negb_true_iff. exact Ga.
+      + apply covers_def_outer; auto; intros _; destruct sh; reflexivity.
+      + apply covers_def_outer; auto; intros _; destruct sh; reflexivity.
+      + apply covers_def_outer; auto; intros _; destruct sh; reflexivity.
+    - (* result as nil as the first argument *)
+      destruct OK as (NI & sa & Ra & H).
+      pose proof (sget_gamma s r a sa C W Ra) as Ga.
+      pose proof (wf_noniface v sh WS NI) as NH.
+      apply covers_set; auto. intros _.
+      unfold gamma in *. apply andb_true_iff in Ga. destruct Ga as [_ Ga].
+      rewrite (gamma_i_nonhold _ sh NH). simpl. rewrite (gamma_o_outer _ sh sa H). exact Ga.
+    - apply covers_def_outer; auto. eapply wf_noniface; eauto.
+    - subst sh. apply covers_def_outer; auto; discriminate.
+    - apply covers_set; auto. intros _. apply gamma_MM.
+    - apply covers_set; auto.
+    - apply covers_set; auto. intros _. apply gamma_MM.
+    - apply covers_set; auto. intros _. apply gamma_MM.
+  Qed.
+
+  (* transfer_sound: one lemma covering every instruction kind *)
+  Lemma transfer_sound tb s r i r' :
+    covers s r -> env_wf r -> exec f tb r i r' -> covers (process_instr f tb s i) r' /\ env_wf r'.
+  Proof.
+    intros C W E. destruct E; simpl.
+    - (* Convert, integer operand *)
+      split.
+      + apply covers_def_outer; auto. eapply wf_noniface; eauto.
+      + apply env_wf_eset; auto. intros P. eapply wf_shape_nonptr; eauto.
+    - (* Convert, pointer-like operand *)
+      split.
+      + apply covers_set; auto. intros P. rewrite P. eapply sget_gamma; eauto.
+      + apply env_wf_eset; auto. intros P. rewrite P. reflexivity.
+    - (* Convert from a value (string) *)
+      split.
+      + apply covers_set; auto. intros _. unfold sget. rewrite H. reflexivity.
+      + apply env_wf_eset; auto.
+    - (* ChangeType / ChangeInterface *)
+      split.
+      + apply covers_set; auto. intros P. rewrite P. eapply sget_gamma; eauto.
+      + apply env_wf_eset; auto. intros P. rewrite P. reflexivity.
+    - (* SliceToArrayPointer, non-zero length *)
+      split.
+      + apply covers_refine_outer with (sh := SNon); auto.
+        * apply covers_def_outer; auto. discriminate.
+        * apply env_wf_eset; auto.
+        * apply eset_SNon_keep; auto.
+      + apply env_wf_eset; auto.
+    - (* SliceToArrayPointer, zero length *)
+      split.
+      + apply covers_set; auto. intros P. rewrite P. eapply sget_gamma; eauto.
+      + apply env_wf_eset; auto. intros P. rewrite P. reflexivity.
+    - (* SliceToArray, non-zero length *)
+      split.
+      + apply covers_eset_nonptr; auto. eapply covers_refine_outer; eauto.
+      + apply env_wf_eset; auto.
+    - split.
+      + apply covers_eset_nonptr; auto.
+      + apply env_wf_eset; auto.
+    - (* Slice of an array *)
+      split.
+      + apply covers_def_outer; auto. discriminate.
+      + apply env_wf_eset; auto.
+    - (* Slice with a non-zero constant bound *)
+      split.
+      + apply covers_refine_outer with (sh := SNon); auto.
+        * apply covers_def_outer; auto. discriminate.
+        * apply env_wf_eset; auto.
+        * apply eset_SNon_keep; auto.
+      + apply env_wf_eset; auto.
+    - (* Slice of a slice *)
+      split.
+      + apply covers_set; auto. intros P. rewrite P. eapply sget_gamma; eauto.
+      + apply env_wf_eset; auto. intros P. rewrite P. reflexivity.
+    - (* Slice of an array pointer *)
+      split.
+      + apply covers_set; auto. intros _. eapply sget_gamma; eauto.
+      + apply env_wf_eset; auto.
+    - (* Slice of a string *)
+      split.
+      + apply covers_set; auto. intros P. congruence.
+      + apply env_wf_eset; auto.
+    - (* If on a nil comparison *)
+      subst tb. simpl. split; auto.
+      rewrite <- H1. destruct (outer_nil sh) eqn:O.
+      + apply covers_reset with (sh := sh); auto. intros _. destruct sh; try discriminate; reflexivity.
+      + apply covers_refine_outer with (sh := sh); auto. simpl. rewrite O. reflexivity.
+    - (* Load *)
+      split.
+      + apply covers_refine_outer with (sh := SNon); auto.
+        * apply covers_set; auto. intros _. destruct glob; destruct sh as [| | |[]]; reflexivity.
+        * apply env_wf_eset; auto. intros P. eapply wf_shape_nonptr; eauto.
+        * rewrite eset_neq; auto.
+      + apply env_wf_eset; auto. intros P. eapply wf_shape_nonptr; eauto.
+    - (* FieldAddr / IndexAddr *)
+      split.
+      + apply covers_def_outer; auto; try discriminate. eapply covers_refine_outer; eauto.
+      + apply env_wf_eset; auto.
+    - (* Alloc / Make* *)
+      split.
+      + apply covers_def_outer; auto. discriminate.
+      + apply env_wf_eset; auto.
+    - (* Store / MapUpdate / Send / Select *)
+      split; auto. eapply covers_refine_outer; eauto.
+    - (* Call / Go / Defer *)
+      assert (C1 : covers (match fv with Some g => sset_outer f s g NeverNil | None => s end) r).
+      { destruct fv as [g|]; auto. eapply covers_refine_outer; eauto. }
+      destruct res as [[v cr]|].
+      + destruct H0 as (sh & OK & ->). split.
+        * apply handle_ret_sound; auto.
+        * apply env_wf_eset; auto. intros P. destruct OK as [WS _]. eapply wf_shape_nonptr; eauto.
+      + subst r'. split; auto.
+    - (* Recv *)
+      split.
+      + apply covers_set; auto.
+        * eapply covers_refine_outer; eauto.
+        * intros _. apply gamma_MM.
+      + apply env_wf_eset; auto. intros P. eapply wf_shape_nonptr; eauto.
+    - (* MakeInterface *)
+      split.
+      + apply covers_set; auto. intros _.
+        pose proof (sget_gamma s r x sx C W H) as G. unfold gamma in G.
+        apply andb_true_iff in G. destruct G as [_ G].
+        unfold gamma. cbn [fst snd]. rewrite (gamma_o_to_inner _ _ G). reflexivity.
+      + apply env_wf_eset; auto. intros P. congruence.
+    - (* TypeAssert to an interface *)
+      assert (C1 : covers (sset_outer f s x NeverNil) r) by (eapply covers_refine_outer; eauto).
+      split.
+      + apply covers_def_outer_inner; auto.
+        pose proof (sget_gamma _ r x (SHold b) C1 W H) as G. unfold gamma in G.
+        apply andb_true_iff in G. destruct G as [G _].
+        unfold gamma. cbn [fst snd]. rewrite G. reflexivity.
+      + apply env_wf_eset; auto. intros P. congruence.
+    - (* TypeAssert to a concrete type *)
+      assert (C1 : covers (sset_outer f s x NeverNil) r) by (eapply covers_refine_outer; eauto).
+      split.
+      + apply covers_def_outer; auto.
+        * apply held_not_hold.
+        * intros P. apply held_gamma_o; auto.
+          pose proof (sget_gamma _ r x (SHold b) C1 W H) as G. unfold gamma in G.
+          apply andb_true_iff in G. apply G.
+      + apply env_wf_eset; auto. intros P. unfold held_shape. unfold ptr in P. rewrite P. reflexivity.
+    - (* MapLookup in a nil map *)
+      split.
+      + destruct (nil_eqb (snd (sget f s x)) AlwaysNil).
+        * apply covers_set; auto. intros P. unfold nil_shape_of. unfold ptr in P. rewrite P. simpl.
+          destruct (v_iface (vi f v)); reflexivity.
+        * apply covers_set; auto. intros _. apply gamma_MM.
+      + apply env_wf_eset; auto. intros P. unfold nil_shape_of. unfold ptr in P. rewrite P. reflexivity.
+    - (* MapLookup *)
+      split.
+      + pose proof (sget_gamma s r x SNon C W H) as G. unfold gamma in G.
+        apply andb_true_iff in G. destruct G as [_ G].
+        destruct (nil_eqb (snd (sget f s x)) AlwaysNil) eqn:E.
+        * apply nil_eqb_eq in E. rewrite E in G. discriminate.
+        * apply covers_set; auto. intros _. apply gamma_MM.
+      + apply env_wf_eset; auto. intros P. eapply wf_shape_nonptr; eauto.
+    - (* Field / Index *)
+      split.
+      + apply covers_set; auto.
+        * unfold sset. rewrite H0. exact C.
+        * intros _. apply gamma_MM.
+      + apply env_wf_eset; auto. intros P. eapply wf_shape_nonptr; eauto.
+    - (* type switch: index *)
+      split.
+      + apply covers_eset_nonptr; auto.
+      + apply env_wf_eset; auto.
+    - (* type switch: default branch *)
+      assert (C1 : covers (sset_outer f s tag (if hasNil then NeverNil else MaybeNil)) r).
+      { eapply covers_refine_outer; eauto. destruct hasNil; simpl.
+        - rewrite H0; auto.
+        - reflexivity. }
+      split.
+      + apply covers_set; auto. intros P. rewrite P. eapply sget_gamma; eauto.
+      + apply env_wf_eset; auto. intros P. rewrite P. reflexivity.
+    - (* type switch: case with an interface type *)
+      assert (C1 : covers (sset_outer f s tag NeverNil) r) by (eapply covers_refine_outer; eauto).
+      split.
+      + apply covers_def_inner_outer; auto.
+        pose proof (sget_gamma _ r tag (SHold b) C1 W H) as G. unfold gamma in G.
+        apply andb_true_iff in G. destruct G as [G _].
+        unfold gamma. cbn [fst snd]. rewrite G. reflexivity.
+      + apply env_wf_eset; auto. intros P. congruence.
+    - (* type switch: case with a concrete type *)
+      assert (C1 : covers (sset_outer f s tag NeverNil) r) by (eapply covers_refine_outer; eauto).
+      split.
+      + apply covers_def_outer; auto.
+        * apply held_not_hold.
+        * intros P. apply held_gamma_o; auto.
+          pose proof (sget_gamma _ r tag (SHold b) C1 W H) as G. unfold gamma in G.
+          apply andb_true_iff in G. apply G.
+      + apply env_wf_eset; auto. intros P. unfold held_shape. unfold ptr in P. rewrite P. reflexivity.
+    - (* Extract of a call result *)
+      split.
+      + apply handle_ret_sound; auto.
+      + apply env_wf_eset; auto. intros P. destruct H as [WS _]. eapply wf_shape_nonptr; eauto.
+    - (* Extract of another tuple *)
+      split.
+      + apply covers_set; auto. intros _. apply gamma_MM.
+      + apply env_wf_eset; auto. intros P. eapply wf_shape_nonptr; eauto.
+    - (* BinOp etc. *)
+      split.
+      + apply covers_eset_nonptr; auto.
+      + apply env_wf_eset; auto.
+    - split; auto.
+    - split; auto.
+    - split; auto.
+  Qed.
+End Sound.
